@@ -818,28 +818,11 @@ func c15R2(c *Ctx) {
 			}
 		}
 		c.Check(RP, pn+"|next-url-from-link", pg.Pos(), okNext, "the URL handed back is the link parser's result (or empty on failure)")
-		// query of the given URL is preserved
-		stores := c13FieldStores(pg, "net/url", "URL", "RawQuery", nil)
-		okQ := true
-		for _, s := range stores {
-			good := false
-			for _, rt := range Roots(s.Val) {
-				enc, ok := rt.(*ssa.Call)
-				if !ok || CalleeName(enc) != "(net/url.Values).Encode" {
-					continue
-				}
-				for _, q := range Roots(enc.Call.Args[0]) {
-					if qc, ok := q.(*ssa.Call); ok && CalleeName(qc) == "(*net/url.URL).Query" {
-						good = true
-					}
-				}
-			}
-			if !good {
-				okQ = false
-			}
-		}
+		// query of the given URL is preserved (same helper as C13.R4)
+		_, badQ, whyQ := c13QueryStores(pg)
+		okQ := badQ == nil
 		c.Check(RP, pn+"|query-preserved", pg.Pos(), okQ,
-			ifelse(okQ, "RawQuery is only replaced by the encoding of the URL's own Query() with n/last set", "the page function replaces the query of the URL it was given: the position parameters of a Link URL are lost"))
+			ifelse(okQ, "RawQuery is only replaced by the encoding of the URL's own Query() with n/last set", "the page function replaces the query of the URL it was given: the position parameters of a Link URL are lost ("+whyQ+")"))
 		// the link is taken from this exchange's response
 		respAl := c13AliasSet(ResultOf(site, 0))
 		okResp := true
